@@ -151,10 +151,10 @@ type Exec struct {
 	race            *raceState
 	fmtDepth        int // formatter model: nesting depth and symbolic pieces of the call in progress
 	fmtSyms         [][]*Term
-	pubsubStopped   bool // pubsub model: the owner stopped pubsub; Subscription.Cancel is a no-op
+	pubsubStopped   bool            // pubsub model: the owner stopped pubsub; Subscription.Cancel is a no-op
 	recordReg       map[string]bool // libp2p record types registered on this path
-	publishFails    bool // pubsub model: Topic.Publish fails
-	topicCloseFails bool // pubsub model: Topic.Close reports outstanding subscriptions
+	publishFails    bool            // pubsub model: Topic.Publish fails
+	topicCloseFails bool            // pubsub model: Topic.Close reports outstanding subscriptions
 	seals           []*sealRec
 	hashFacts       []hashFact
 	hashApps        []hashFact
